@@ -20,11 +20,22 @@ from props import wirelib as W
 PROP = "C14"
 COQ_FILES = ["Reload/Model.v", "Reload/Proofs.v", "Reload/Mutants.v", "Reload/Props.v"]
 BACKENDS = ["b0", "b1", "b2", "b3", "b4", "bd"]          # bd starts "down_held" (connection refused, port reserved)
-DBID = {"pa": 0, "pb": 1, "pc": 2}
+# sharded pool ps: shard k = primary hkp + replicas hkr, hkq.  The hkr listen on 127.0.0.2 (admin BAN is by host); hkq stays unbanned, so that
+# "all replicas banned => unban all" (pool.rs:993-1010) never empties the list behind the test's back
+SHARD_BACKENDS = ["h%d%s" % (k, x) for k in range(3) for x in "prq"]
+HOST = {b: "127.0.0.2" for b in SHARD_BACKENDS if b.endswith("r")}
+ALLB = BACKENDS + SHARD_BACKENDS
+DBID = {"pa": 0, "pb": 1, "pc": 2, "ps": 3}
 USERID = {"u": 0, "v": 1}
 # repaired findings, kept as regression inputs (known_findings.jsonl: status "fixed")
 F12 = "F12-config-stored-before-pools-built"     # 0510794: reload_config restores the old CONFIG when from_config fails
 D2 = "D2-pool-mode-not-refreshed"                # a374b10: Client.transaction_mode is refreshed after get_pool() at every checkout
+D3 = "D3-router-settings-stale-until-checkout"    # c3cef0c: pool + router settings are refreshed when a message arrives, before custom commands / parsing / plugins
+D4 = "D4-default-role-copied-at-connect-only"
+D4_TEXT = ("D4 default_role is copied into a session's active role at connect only (client.rs set_default_role, once, at the start of handle()): a RELOAD that changes a pool's "
+           "default_role does not reach sessions that are already connected (query parser read/write splitting off), unless they SET SERVER ROLE TO 'default'; new sessions get it. "
+           "Class: OLD session (connected before the reload) x the reload changed default_role of its pool x the statement's role is not inferred by the parser x the session "
+           "never issued SET SERVER ROLE")
 
 GEN_BASE = {"host": "127.0.0.1", "port": 6432, "admin_username": "admin", "admin_password": "adminpw",
             "connect_timeout": 300, "healthcheck_timeout": 500, "healthcheck_delay": 30000, "shutdown_timeout": 1500,
@@ -94,7 +105,7 @@ def render(sem, style=0):
             out.append("")
         for sh in p["shards"]:
             out.append("[pools.%s.shards.%s]" % (n, sh["key"]))
-            srv = ", ".join('["127.0.0.1", @PORT:%s@, "%s"]' % (b, r) for b, r in sh["servers"])
+            srv = ", ".join('["%s", @PORT:%s@, "%s"]' % (HOST.get(b, "127.0.0.1"), b, r) for b, r in sh["servers"])
             if rev:
                 out.append("servers = [ %s ]" % srv)
                 out.append('database = "db_%s"' % n)
@@ -132,6 +143,16 @@ BASES = {
 }
 
 
+def shard(k, *names):
+    """names: letters p (primary), r, q (replicas) in file order"""
+    return {"key": str(k), "servers": [["h%d%s" % (k, x), "primary" if x == "p" else "replica"] for x in (names or "prq")]}
+
+
+BASES["H"] = {"pools": {"ps": {"opts": {}, "users": [user()], "shards": [shard(0), shard(1)]}, "pb": pool([["b1", "primary"]])}}
+TA = "[pools.ps.plugins.table_access]\nenabled = %s\ntables = [%s]\n"
+BASES["HQ"] = {"pools": {"ps": {"opts": {"default_role": "primary"}, "users": [user()], "shards": [shard(0), shard(1)]}, "pb": pool([["b1", "primary"]])}}
+BASES["HP"] = {"pools": {"ps": {"opts": {"query_parser_enabled": True}, "raw": TA % ("true", '"secret"'), "users": [user()], "shards": [shard(0), shard(1)]},
+                         "pb": pool([["b1", "primary"]])}}
 LOW, HIGH, IDLE = 500, 3000, 1100       # idle_client_in_transaction_timeout values (ms) and the silence used against them
 BASES["T"] = dict(copy.deepcopy(BASES["A"]), general={"idle_client_in_transaction_timeout": HIGH})
 BASES["S"] = dict(copy.deepcopy(BASES["A"]), general={"idle_client_in_transaction_timeout": LOW})
@@ -235,6 +256,37 @@ def valid_kinds():
     K.append(("pa-user-u-removed/paused", "B", mut("B", deluser_u), 0, {"pause": [("pa", "u")]}))
     K.append(("pa-changed+pb-removed+pc-added/paused", "A", mut("A", combo), 0, {"pause": [("pb", "u")]}))
     K.append(("pa-removed-B/both-users-paused", "B", mut("B", delpa), 0, {"pause": [("pa", "u"), ("pa", "v")]}))
+    # (a) shards / servers of an existing pool added, removed, reordered, with the replicas banned before the reload (admin BAN by
+    # host) and transactions to EVERY shard afterwards, from the old session and from a new one
+    SW = {"ban": "127.0.0.2", "sweep": True}
+    def shards(v):
+        def f(P): P["ps"]["shards"] = v
+        return f
+    K.append(("ps-shard-added", "H", mut("H", shards([shard(0), shard(1), shard(2)])), 0, SW))
+    K.append(("ps-shard-removed", "H", mut("H", shards([shard(0)])), 0, SW))
+    K.append(("ps-servers-reordered", "H", mut("H", shards([shard(0, *"rqp"), shard(1)])), 0, SW))
+    K.append(("ps-replica-removed", "H", mut("H", shards([shard(0), shard(1, *"pq")])), 0, SW))
+    K.append(("ps-two-shards-added-one-reordered", "H", mut("H", shards([shard(0), shard(1, *"qrp"), shard(2)])), 1, SW))
+    K.append(("ps-unchanged-with-bans", "H", mut("H", ident, ban_time=61), 0, SW))
+    # (b) pool options that live in the client's query router: an OLD session must work by the new value from its next statement on
+    def popt(**o):
+        def f(P): P["ps"]["opts"].update(o)
+        return f
+    def ta(enabled, tables, **o):
+        def f(P): P["ps"]["opts"].update(dict({"query_parser_enabled": True}, **o)); P["ps"]["raw"] = TA % (enabled, tables)
+        return f
+    # (the denial rule itself is read back from the raw text by probe_expect)
+    K.append(("ps-table_access-enabled", "H", mut("H", ta("true", '"secret"')), 0, {"probe": ["table:secret", "table:other"]}))
+    K.append(("ps-table_access-list-changed", "HP", mut("HP", ta("true", '"other"')), 0, {"probe": ["table:secret", "table:other"]}))
+    K.append(("ps-table_access-disabled", "HP", mut("HP", ta("false", '"secret"')), 0, {"probe": ["table:secret"]}))
+    K.append(("ps-default_role-replica", "H", mut("H", popt(default_role="replica")), 0, {"probe": ["role"]}))
+    K.append(("ps-default_role-primary", "H", mut("H", popt(default_role="primary")), 0, {"probe": ["role"]}))
+    K.append(("ps-default_role-primary-to-replica", "HQ", mut("HQ", popt(default_role="replica")), 0, {"probe": ["role"]}))
+    K.append(("ps-rw-splitting-on", "H", mut("H", popt(default_role="primary", query_parser_enabled=True, query_parser_read_write_splitting=True, primary_reads_enabled=False)), 0,
+              {"probe": ["role", "write"]}))
+    K.append(("ps-shard-count-2-to-3", "H", mut("H", shards([shard(0), shard(1), shard(2)])), 0, {"probe": ["key:%d" % k for k in range(1, 9)]}))
+    K.append(("ps-sharding_function-sha1", "H", mut("H", popt(sharding_function="sha1")), 0, {"probe": ["key:%d" % k for k in range(1, 9)]}))
+    K.append(("ps-default_shard-1", "H", mut("H", popt(default_shard="shard_1")), 0, {"probe": ["role"]}))
     # a transaction HELD by PAUSE across the reload: PAUSE pa,u; A's first statement is held; reload; RESUME; the transaction
     # must start on what the new file says (servers, mode, idle timeout) / be refused if the pool or user is gone
     H = {"hold": ("pa", "u")}
@@ -367,6 +419,24 @@ def make_cases(rng, quick):
             f1 = {"kind": "valid", "sem": sem, "style": style, "dead": True}
             f2 = {"kind": "valid", "sem": sem, "style": style, "revive": True}
             cases.append({"name": name, "base": base, "files": [f1, f2], "timing": timing, "trigger": trig, "extra": {}, "old_style": 0})
+        n += 1
+    # (d) refused reloads while a pool is PAUSEd: the new file DROPS the paused pool and is then refused (its build fails / it is invalid):
+    # the pool stays registered AND paused; RESUME afterwards works
+    def drop_pb_dead(P):
+        del P["pb"]; P["pa"]["shards"][0]["servers"] = [["bd", "primary"]]; P["pa"]["users"][0]["min_pool_size"] = 1
+    def drop_pb_bad(P):
+        del P["pb"]; P["pa"]["users"][0]["pool_size"] = 0
+    def drop_pb_role(P):
+        del P["pb"]; P["pa"]["opts"]["default_role"] = "master"
+    refused = [("refused-build/pb-dropped-while-paused", {"kind": "valid", "sem": mut("A", drop_pb_dead, validate_config=True, connect_timeout=100), "style": 0, "dead": True}),
+               ("refused-validate/pb-dropped-while-paused", {"kind": "validate", "sem": mut("A", drop_pb_bad), "style": 0}),
+               ("refused-validate-role/pb-dropped-while-paused", {"kind": "validate", "sem": mut("A", drop_pb_role), "style": 0}),
+               ("refused-toml/pb-paused", {"kind": "toml", "sem": mut("A", drop_pb_bad), "tf": "toml-double-equals", "style": 0}),
+               ("refused-unreadable/pb-paused", {"kind": "unreadable", "sem": None, "style": 0})]
+    for name, f1 in refused:
+        for ti, timing in enumerate(TIMINGS):
+            f2 = dict(f1, revive=True, dead=False) if f1.get("dead") else {"kind": "valid", "sem": follow, "style": 0}
+            cases.append({"name": name, "base": "A", "files": [f1, f2], "timing": timing, "trigger": TRIGGERS[(n + ti) % 3], "extra": {"pause": [("pb", "u")]}, "old_style": 0})
         n += 1
     # the same pairs with the OLD file in another rendering (one moment each, rotating)
     for j, (name, base, sem, style, extra) in enumerate(valid_kinds()):
@@ -503,6 +573,43 @@ class Script:
         self.ops.append((verb.lower(), db, usr))
         self.mark()
 
+    def ban_host(self, host):
+        """admin BAN <host> 600: bans every server with that host in every registered pool (one model op per banned address)"""
+        self.steps += q("admq", "BAN %s 600" % host, "ban")
+        for n in sorted(self.inforce["pools"]):
+            pl = self.inforce["pools"][n]
+            for si, sh in enumerate(sorted(pl["shards"], key=lambda x: int(x["key"]))):
+                for ai, (b, r) in enumerate(sh["servers"]):
+                    if HOST.get(b, "127.0.0.1") == host and r != "primary":
+                        for u in pl["users"]:
+                            self.ops.append(("ban", n, u["username"], si * 10 + ai))
+                            self.mark(0)
+
+    def sweep(self, c, tag):
+        """one autocommit statement on every shard of the client's pool as the file in force defines it (no model ops)"""
+        db, usr = self.clients[c]
+        pl = self.inforce["pools"].get(db)
+        for k in range(len(pl["shards"]) if pl else 0):
+            self.steps += q(c, "SET SHARD TO '%d'" % k, "sweepset:%s:%s:%d" % (tag, c, k))
+            self.steps += q(c, "SELECT '%s_s%d'" % (c, k), "sweep:%s:%s:%d" % (tag, c, k))
+        if pl:
+            self.steps += q(c, "SET SHARD TO '0'", "sweepset:%s:%s:reset" % (tag, c))
+
+    def probes(self, c, tag):
+        """statements whose outcome depends on a pool option that lives in the client's query router (no model ops)"""
+        for pr in self.case["extra"].get("probe", []):
+            kind, _, arg = pr.partition(":")
+            lab = "probe:%s:%s:%s" % (tag, c, pr)
+            mk = "'%s_p%s%s'" % (c, tag, pr.replace(":", ""))
+            if kind == "table":
+                self.steps += q(c, "SELECT * FROM %s WHERE m = %s" % (arg, mk), lab)
+            elif kind == "role":
+                self.steps += q(c, "SELECT %s" % mk, lab)
+            elif kind == "write":
+                self.steps += q(c, "INSERT INTO t VALUES (%s)" % mk, lab)
+            elif kind == "key":
+                self.steps += q(c, "SET SHARDING KEY TO '%s'" % arg, lab + ":set") + q(c, "SELECT %s" % mk, lab)
+
     def hold_begin(self, c):
         """the first statement of a new transaction while the client's pool is paused: no reply may come"""
         k = len(self.ops)
@@ -588,7 +695,8 @@ def build_script(case):
     base = BASES[case["base"]]
     s.steps.append({"op": "connect", "c": "admq", "params": {"user": "admin", "database": "pgcat"}, "password": "adminpw"})
     s.steps.append({"op": "reload_state", "label": "start"})
-    cl = [("A", "pa", "u", "pw"), ("B", "pb", "u", "pw")]
+    apool = "ps" if case["base"] in ("H", "HP", "HQ") else "pa"
+    cl = [("A", apool, "u", "pw"), ("B", "pb", "u", "pw")]
     if case["base"] == "B":
         cl.append(("V", "pa", "v", "pwv"))
     for c, db, usr, pw in cl:
@@ -607,6 +715,12 @@ def build_script(case):
         s.begin("A")
     for db, usr in case["extra"].get("pause", []):
         s.pause(db, usr)
+    if case["extra"].get("ban"):
+        s.ban_host(case["extra"]["ban"])
+    if case["extra"].get("sweep") and t != "inside":
+        s.sweep("A", "pre")
+    if case["extra"].get("probe") and t != "inside":
+        s.probes("A", "pre")
     if hold:
         s.pause(*hold)
         s.hold_begin("A")
@@ -639,11 +753,23 @@ def build_script(case):
     new1 = case["files"][0]["sem"]
     s.connect("C", "pc", "u", "pw")
     s.connect("B2", "pb", "u", "pw")
+    extra_live = []
+    if case["extra"].get("sweep") or case["extra"].get("probe"):
+        s.connect("N", apool, "u", "pw")         # a NEW session, to compare the old one with
+        extra_live.append("N")
+        for c_ in ("A", "N"):
+            if case["extra"].get("probe"):
+                s.probes(c_, "post")             # the very first statements after the reload
+                if c_ == "A":
+                    s.steps += q("A", "SELECT 'A_warm'", "probe:warm")     # one served statement = one checkout since the reload
+                    s.probes("A", "post2")
+            if case["extra"].get("sweep"):
+                s.sweep(c_, "post")
     auth = case["extra"].get("auth")
     if auth:
         s.probe_connect("A3", auth[0], auth[1], auth[3])     # old password: must be refused once the new file is in effect
         s.connect("A2", auth[0], auth[1], auth[2])           # new password
-    live = [c for c, _, _, _ in cl] + ["C", "B2"] + (["A2"] if auth else [])
+    live = [c for c, _, _, _ in cl] + ["C", "B2"] + (["A2"] if auth else []) + extra_live
     if idle:
         s.begin("A")                         # a NEW transaction: the value of the file now in force applies
         if not s.idle("A", idle):
@@ -665,7 +791,10 @@ def build_script(case):
 def scenario(case):
     s = build_script(case)
     old = render(BASES[case["base"]], case.get("old_style", 0))
-    return {"backends": [{"name": b, **({"mode": "down_held"} if b == "bd" else {})} for b in BACKENDS], "toml": old, "steps": s.steps, "workers": 2}, s
+    bl = [{"name": b, **({"mode": "down_held"} if b == "bd" else {})} for b in BACKENDS]
+    if case["base"] in ("H", "HP", "HQ"):
+        bl += [{"name": b, **({"host": HOST[b]} if b in HOST else {})} for b in SHARD_BACKENDS]
+    return {"backends": bl, "toml": old, "steps": s.steps, "workers": 2}, s
 
 
 # ------------------------------------------------------------------------------------ the model side
@@ -721,6 +850,9 @@ def coq_ops(case, script):
             if o[0] in ("pause", "resume"):
                 out.append("%s (%d, %d)" % ("OPause" if o[0] == "pause" else "OResume", DBID[o[1]], USERID[o[2]]))
                 continue
+            if o[0] == "ban":
+                out.append("OBan (%d, %d) %d" % (DBID[o[1]], USERID[o[2]], o[3]))
+                continue
             c = cid.setdefault(o[1], len(cid))
             if o[0] == "idle":
                 out.append("OIdle %d %d" % (c, o[2]))
@@ -742,11 +874,11 @@ def model_traces(cases_scripts):
     for v, (ids, cid) in zip(vals, meta):
         steps = []
         for x in vlib.parse_coq(v):
-            kind, a, b, c, view, objs, (cidle, mpaused) = x      # Coq prints left-nested tuples flat
+            kind, a, b, c, view, objs, (cidle, mpaused, mbans) = x      # Coq prints left-nested tuples flat
             gen, cpools, pools, servers = view
             steps.append({"obs": (kind, a, b, c), "gen": gen, "cpools": [(d, pd, tuple(us)) for d, (pd, us) in cpools],
                           "pools": [tuple(p) for p in pools], "servers": [tuple(s) for s in servers], "objs": [tuple(o) for o in objs],
-                          "cidle": cidle, "paused": sorted(tuple(k) for k in mpaused)})
+                          "cidle": cidle, "paused": sorted(tuple(k) for k in mpaused), "bans": sorted(tuple(k) for k in mbans)})
         out.append({"steps": steps, "ids": ids, "cid": cid})
     return out
 
@@ -767,9 +899,9 @@ def read_impl(case, script, res):
     order = []   # canonical server ids: order of `open` events
     opened_at, closed_at = {}, {}
     for e in ev:
-        if e.get("ev") == "open" and e["who"] in BACKENDS:
+        if e.get("ev") == "open" and e["who"] in ALLB:
             order.append((e["who"], e["conn"])); opened_at[(e["who"], e["conn"])] = e["seq"]
-        if e.get("ev") == "close" and e["who"] in BACKENDS:
+        if e.get("ev") == "close" and e["who"] in ALLB:
             closed_at[(e["who"], e["conn"])] = e["seq"]
     sid = {k: i for i, k in enumerate(order)}
     out = []
@@ -855,6 +987,8 @@ def read_impl(case, script, res):
                 ob["obs"] = ("idle", "quiet", e["outcome"] if e else None)
             else:
                 ob["obs"] = ("idle", "odd", [(x.get("t"), x.get("fields", {}).get("M")) for x in fr])
+        elif o[0] == "ban":
+            ob["obs"] = ("ban", "ok")
         elif o[0] in ("pause", "resume"):
             e = recvs.get("op%d:admin" % k)
             fr = e["frames"] if e else []
@@ -965,6 +1099,12 @@ def compare(case, script, model, impl, warm):
         ip_ = sorted((DBID.get(p_["db"], -1), USERID.get(p_["user"], -1)) for p_ in i["state"]["pools"] if p_.get("paused"))
         if ip_ != m["paused"]:
             return "%s: paused pools %s, model %s" % (what, ip_, m["paused"])
+        if not (o[0] == "ban" and k + 1 < len(script.ops) and script.ops[k + 1][0] == "ban"):
+            # (one admin BAN = several model ops: compare when the last of them is done)
+            ib = sorted((ob_.f[p_["obj"]], b_[0] * 10 + b_[1]) for p_ in i["state"]["pools"] if p_["obj"] in ob_.f for b_ in p_.get("bans", []))
+            mb = sorted(x for x in m["bans"] if x[0] in ob_.g and any(p_["obj"] == ob_.g[x[0]] for p_ in i["state"]["pools"]))
+            if ib != mb:
+                return "%s: ban lists of the registered pool objects %s, model %s" % (what, ib, mb)
         if o[0] == "reload" and i["state"]["config"].get("idle_client_in_transaction_timeout") != m["cidle"]:
             return "%s: CONFIG idle_client_in_transaction_timeout %s, model %s" % (what, i["state"]["config"].get("idle_client_in_transaction_timeout"), m["cidle"])
         parked = case["extra"].get("hold") and ("begin", "A") in script.ops[:k + 1] and ("wake", "A") not in script.ops[:k + 1] \
@@ -987,6 +1127,128 @@ def compare(case, script, model, impl, warm):
 
 # ------------------------------------------------------------------------------------ monitors (no model involved)
 
+def probe_expect(sem, pr):
+    """what the file says about a probe statement on pool ps: ("denied",) | ("served", set of allowed backends) | ("same",)"""
+    import re
+    pl = sem["pools"]["ps"]
+    o = dict(POOL_BASE); o.update(pl.get("opts", {}))
+    shs = sorted(pl["shards"], key=lambda x: int(x["key"]))
+    kind, _, arg = pr.partition(":")
+    if kind == "table":
+        raw = pl.get("raw") or ""
+        on = o.get("query_parser_enabled") and "table_access" in raw and re.search(r"enabled = true", raw)
+        tables = re.findall(r'"([a-z]+)"', (re.search(r"tables = \[(.*?)\]", raw) or [None, ""])[1]) if raw else []
+        if on and arg in tables:
+            return ("denied",)
+        return ("served", {b for sh in shs for b, _ in sh["servers"]})
+    ds = o.get("default_shard", "shard_0")
+    k = int(ds.split("_")[1]) if ds.startswith("shard_") else 0
+    srv = shs[min(k, len(shs) - 1)]["servers"]
+    split = o.get("query_parser_enabled") and o.get("query_parser_read_write_splitting")
+    if kind == "write":
+        return ("served", {b for b, r in srv if r == "primary"}) if split else ("served", {b for b, r in srv if o.get("default_role") in ("any", r)})
+    if kind == "role":
+        if split:
+            return ("served", {b for b, r in srv if r == "replica"} if not o.get("primary_reads_enabled") else {b for b, _ in srv})
+        return ("served", {b for b, r in srv if o.get("default_role") in ("any", r)})
+    return ("same", {b for sh in shs for b, _ in sh["servers"]})
+
+
+def option_monitors(case, script, res, impl):
+    """(a) every shard of the new definition serves, from the old session and from a new one; (b) statements whose outcome depends on a pool
+    option behave by the file in force, in the OLD session exactly as in a new one; bans stay with the pool object"""
+    V = []
+    ev = res["events"]
+    recvs = {e["label"]: e for e in ev if e.get("ev") == "recv" and e.get("label")}
+    msgs = [e for e in ev if e.get("ev") == "msg" and e.get("who") in ALLB and e.get("tag") == "Q"]
+    r0 = next((i for o, i in zip(script.ops, impl) if o[0] == "reload"), None)
+    f0 = case["files"][0]
+    if r0 is None or f0["kind"] != "valid" or f0.get("dead") or r0["obs"][1] in (0, "err", 3):
+        return V, {}
+    new = f0["sem"]
+    if "ps" not in new["pools"]:
+        return V, {}
+    shs = sorted(new["pools"]["ps"]["shards"], key=lambda x: int(x["key"]))
+    info = {"sweeps": 0, "probes": 0, "keys_rerouted": 0}
+
+    def answered_by(label, marker=None):
+        e = recvs.get(label)
+        fr = e["frames"] if e else []
+        errs = [x.get("fields", {}).get("M") for x in fr if x.get("t") == "E"]
+        rows = [x["cols"] for x in fr if x.get("t") == "D"]
+        who = rows[0][0] if rows else None
+        if who is None and marker:
+            hit = [m["who"] for m in msgs if marker in ((m.get("detail") or {}).get("sql") or "")]
+            who = hit[0] if hit else None
+        return who, errs, (e["outcome"] if e else "missing"), bool(fr)
+
+    for c in ("A", "N"):
+        for k in range(len(shs)):
+            lab = "sweep:post:%s:%d" % (c, k)
+            if lab not in recvs:
+                continue
+            info["sweeps"] += 1
+            who, errs, outc, any_ = answered_by(lab)
+            allowed = {b for b, _ in shs[k]["servers"]}
+            if who not in allowed or errs:
+                V.append(("S3", "%s: after the reload the %s session's statement on shard %d of pool ps got %s (errors %s, %s); the file names %s for that shard"
+                                % (case["name"], "OLD" if c == "A" else "new", k, who, errs, outc, sorted(allowed))))
+    shard_of = lambda b: b[1] if (b and b[0] == "h") else b
+    old_o = dict(POOL_BASE); old_o.update(BASES[case["base"]]["pools"]["ps"].get("opts", {}))
+    new_o = dict(POOL_BASE); new_o.update(new["pools"]["ps"].get("opts", {}))
+    for pr in case["extra"].get("probe", []):
+        exp = probe_expect(new, pr)
+        got = {}
+        for c, rnd in (("A", "post"), ("A", "post2"), ("N", "post")):
+            lab = "probe:%s:%s:%s" % (rnd, c, pr)
+            if lab not in recvs:
+                continue
+            info["probes"] += 1
+            who, errs, outc, any_ = answered_by(lab, "'%s_p%s%s'" % (c, rnd, pr.replace(":", "")))
+            g = "denied" if (errs and who is None) else who
+            got[(c, rnd)] = g
+            sess = {"post": "first statement of the OLD session", "post2": "OLD session (after one served statement)"}[rnd] if c == "A" else "new session"
+            bad = None
+            if exp[0] == "denied":
+                if g != "denied":
+                    bad = "%s: probe %s, %s after the reload: answered by %s; the file in force denies it (table_access)" % (case["name"], pr, sess, who)
+            elif exp[0] == "served" and g not in exp[1]:
+                bad = "%s: probe %s, %s after the reload: %s (errors %s, %s); by the file in force it is served by one of %s" % (case["name"], pr, sess, g, errs, outc, sorted(exp[1]))
+            elif exp[0] == "same" and g not in exp[1]:
+                bad = "%s: probe %s, %s after the reload: %s (errors %s, %s)" % (case["name"], pr, sess, g, errs, outc)
+            if bad:
+                splitting = new_o.get("query_parser_enabled") and new_o.get("query_parser_read_write_splitting")
+                if c == "A" and pr == "role" and not splitting and old_o.get("default_role") != new_o.get("default_role"):
+                    # class D4: old session x default_role changed x role not inferred by the parser x no SET SERVER ROLE (the scripts never send one)
+                    info.setdefault("d4", []).append(bad)
+                elif c == "A" and rnd == "post":
+                    info.setdefault("d3", []).append(bad)                 # regression of D3: judged by the settings of the previous checkout
+                else:
+                    V.append(("S3", bad))
+        if exp[0] == "same":
+            for rnd in ("post", "post2"):
+                a_, n_ = got.get(("A", rnd)), got.get(("N", "post"))
+                if a_ and n_ and shard_of(a_) != shard_of(n_):
+                    msg = "%s: probe %s: the OLD session (%s) is routed to shard of %s, a new session to %s (sharding function / shard count of the file in force)" % (case["name"], pr, rnd, a_, n_)
+                    if rnd == "post" and pr == case["extra"]["probe"][0]:
+                        info.setdefault("d3", []).append(msg)             # regression of D3: the first custom command since the reload
+                    else:
+                        V.append(("S3", msg))
+            pre = answered_by("probe:pre:A:%s" % pr, "'A_ppre%s'" % pr.replace(":", ""))[0]
+            if pre and got.get(("A", "post2")) and shard_of(pre) != shard_of(got[("A", "post2")]):
+                info["keys_rerouted"] += 1
+    # bans stay with the object: a rebuilt pool starts with none, a kept one keeps its list
+    pre_p = {(p["db"], p["user"]): p for p in r0["pre"]["pools"]}
+    for p in r0["state"]["pools"]:
+        q_ = pre_p.get((p["db"], p["user"]))
+        if q_ is None or q_["obj"] != p["obj"]:
+            if p.get("bans"):
+                V.append(("S2", "%s: pool %s@%s was built by this reload and starts with bans %s" % (case["name"], p["user"], p["db"], p["bans"])))
+        elif p.get("bans") != q_.get("bans"):
+            V.append(("S2", "%s: pool %s@%s was kept by the reload but its ban list changed %s -> %s" % (case["name"], p["user"], p["db"], q_.get("bans"), p.get("bans"))))
+    return V, info
+
+
 def cmp_rows(rows):
     # SHOW DATABASES: name host port database force_user pool_size min_pool_size reserve_pool pool_mode max_connections current_connections paused disabled
     return sorted(tuple(r[:10]) + tuple(r[11:]) for r in rows)
@@ -1006,7 +1268,7 @@ def monitors(case, script, res, impl):
             continue
         f = case["files"][o[1]]
         pre, post = i["pre"], i["state"]
-        win = [e for e in ev if i["pre_seq"] < e["seq"] < i["seq"] and e.get("who") in BACKENDS and e.get("ev") in ("open", "close")]
+        win = [e for e in ev if i["pre_seq"] < e["seq"] < i["seq"] and e.get("who") in ALLB and e.get("ev") in ("open", "close")]
         res_ok = i["obs"][1] in (1, 2, "ok")
         if f["kind"] != "valid" or f.get("dead"):
             # S1: invalid file (or, F12 regression, a file whose pools cannot be built) => Err, configuration, pools and server connections as they were
@@ -1077,7 +1339,7 @@ def monitors(case, script, res, impl):
             if set(rows) != set(want):
                 V.append(("S3", "%s: SHOW DATABASES lists %s, the file has %s" % (case["name"], sorted(rows), sorted(want))))
     # transaction-level sentences
-    msgs = [e for e in ev if e.get("ev") == "msg" and e.get("who") in BACKENDS]
+    msgs = [e for e in ev if e.get("ev") == "msg" and e.get("who") in ALLB]
     # which file is in force at each op (by the implementation's own CONFIG/POOLS agreement) is not needed here:
     # S5 uses only "the backends any definition of the client's pool ever named"
     ever = {}
@@ -1166,7 +1428,7 @@ def stale_mode_hits(case, script, res):
     left = {e["who"]: e["seq"] for e in ev if e.get("ev") == "closed_by_client"}
     per = {}
     for m in ev:
-        if m.get("ev") == "msg" and m.get("who") in BACKENDS and m.get("tag") == "Q":
+        if m.get("ev") == "msg" and m.get("who") in ALLB and m.get("tag") == "Q":
             g = re.search(r"'([A-Z][A-Z0-9]*)_\d+'", (m.get("detail") or {}).get("sql") or "")
             if g:
                 per.setdefault((m["who"], m["conn"]), []).append((m["seq"], g.group(1)))
@@ -1183,6 +1445,180 @@ def stale_mode_hits(case, script, res):
             if mode == ["Session"] and script.clients.get(c2) == (db, usr):
                 hits.append("%s: pool %s is in session mode, yet server connection %s served client %s and then client %s while %s was still connected" % (case["name"], db, conn, c1, c2, c1))
     return hits
+
+
+# ------------------------------------------------------------------------------------ (c) every field of a pool definition matters
+
+FIELD_STRUCTS = ["Pool", "User", "Shard", "ServerConfig", "MirrorServerConfig", "Plugins", "Intercept", "TableAccess", "QueryLogger", "Prewarmer", "Query"]
+# fields whose value is not visible in PoolSettings / the addresses (they go into the bb8 builder or the ServerPool manager): for
+# these only "Ok(true), new hash, new object" is required
+NOT_IN_SETTINGS = {("Pool", "connect_timeout"), ("Pool", "idle_timeout"), ("Pool", "server_lifetime"), ("Pool", "cleanup_server_connections"),
+                   ("Pool", "log_client_parameter_status_changes"), ("Pool", "prepared_statements_cache_size")}
+
+
+def source_fields():
+    import re, os
+    src = open(os.path.join(vlib.REPO, "src", "config.rs")).read()
+    out = []
+    for st in FIELD_STRUCTS:
+        m = re.search(r"pub struct %s \{(.*?)\n\}" % st, src, re.S)
+        if not m:
+            return None
+        out += [(st, f) for f in re.findall(r"pub (\w+):", m.group(1))]
+    return out
+
+
+def rich_base():
+    return {"opts": {"pool_mode": "transaction", "load_balancing_mode": "random", "default_role": "any", "query_parser_enabled": True, "query_parser_max_length": 1000,
+                     "query_parser_read_write_splitting": True, "primary_reads_enabled": True, "connect_timeout": 800, "idle_timeout": 500000, "checkout_failure_limit": 5,
+                     "server_lifetime": 86000000, "sharding_function": "pg_bigint_hash", "automatic_sharding_key": "t.id", "sharding_key_regex": "sk: (\\d+)",
+                     "shard_id_regex": "sid: (\\d+)", "regex_search_limit": 500, "default_shard": "shard_0", "auth_query": "SELECT 1", "auth_query_user": "aq",
+                     "auth_query_password": "aqpw", "cleanup_server_connections": True, "log_client_parameter_status_changes": False, "prepared_statements_cache_size": 0,
+                     "db_activity_based_routing": False, "db_activity_init_delay": 100, "db_activity_ttl": 900, "table_mutation_cache_ms_ttl": 50},
+            "plugins": {"intercept": {"enabled": False, "queries": {"0": {"query": "select 1", "schema": [["a", "text"]], "result": [["1"]]}}},
+                        "table_access": {"enabled": False, "tables": ["secret"]}, "query_logger": {"enabled": False}, "prewarmer": {"enabled": False, "queries": ["SELECT 1"]}},
+            "users": {"0": {"username": "u", "password": "pw", "auth_type": "md5", "server_username": "su", "server_password": "spw", "pool_size": 3, "min_pool_size": 0,
+                            "pool_mode": None, "server_lifetime": 80000000, "statement_timeout": 0, "connect_timeout": 700, "idle_timeout": 400000}},
+            "shards": {"0": {"database": "db0", "mirrors": [["127.0.0.1", "b2", 0]], "servers": [["127.0.0.1", "b0", "primary"], ["127.0.0.1", "b1", "replica"]]},
+                       "1": {"database": "db1", "mirrors": None, "servers": [["127.0.0.1", "b3", "primary"]]}}}
+
+
+def render_rich(P):
+    out = ["[general]"] + ["%s = %s" % (k, W.toml_val(v)) for k, v in GEN_BASE.items()] + ["", "[pools.pf]"]
+    out += ["%s = %s" % (k, W.toml_val(v)) for k, v in P["opts"].items() if v is not None] + [""]
+    pg = P.get("plugins")
+    if pg is not None:
+        out.append("[pools.pf.plugins]")
+        for name in ("table_access", "query_logger", "prewarmer", "intercept"):
+            x = pg.get(name)
+            if x is None:
+                continue
+            out.append("[pools.pf.plugins.%s]" % name)
+            for k, v in x.items():
+                if k != "queries" or name != "intercept":
+                    out.append("%s = %s" % (k, W.toml_val(v)))
+            if name == "intercept":
+                for qk, qv in x.get("queries", {}).items():
+                    out.append("[pools.pf.plugins.intercept.queries.%s]" % qk)
+                    out += ["%s = %s" % (k, W.toml_val(v)) for k, v in qv.items()]
+        out.append("")
+    for uk, u in P["users"].items():
+        out.append("[pools.pf.users.%s]" % uk)
+        out += ["%s = %s" % (k, W.toml_val(v)) for k, v in u.items() if v is not None] + [""]
+    for sk, sh in P["shards"].items():
+        out.append("[pools.pf.shards.%s]" % sk)
+        out.append("database = %s" % W.toml_val(sh["database"]))
+        out.append("servers = [%s]" % ", ".join('["%s", @PORT:%s@, "%s"]' % (h, b, r) for h, b, r in sh["servers"]))
+        if sh.get("mirrors") is not None:
+            out.append("mirrors = [%s]" % ", ".join('["%s", @PORT:%s@, %d]' % (h, b, i) for h, b, i in sh["mirrors"]))
+        out.append("")
+    return "\n".join(out) + "\n"
+
+
+def field_steps():
+    """[(struct, field, mutation)]: each changes exactly that field (cumulatively), every intermediate file is valid"""
+    o = lambda k, v: (lambda P: P["opts"].__setitem__(k, v))
+    u = lambda k, v: (lambda P: P["users"]["0"].__setitem__(k, v))
+    pl = lambda name, k, v: (lambda P: P["plugins"][name].__setitem__(k, v))
+    qy = lambda k, v: (lambda P: P["plugins"]["intercept"]["queries"]["0"].__setitem__(k, v))
+    S = [("Pool", "pool_mode", o("pool_mode", "session")), ("Pool", "load_balancing_mode", o("load_balancing_mode", "loc")), ("Pool", "default_role", o("default_role", "primary")),
+         ("Pool", "query_parser_max_length", o("query_parser_max_length", 2000)), ("Pool", "primary_reads_enabled", o("primary_reads_enabled", False)),
+         ("Pool", "connect_timeout", o("connect_timeout", 900)), ("Pool", "idle_timeout", o("idle_timeout", 500001)), ("Pool", "checkout_failure_limit", o("checkout_failure_limit", 6)),
+         ("Pool", "server_lifetime", o("server_lifetime", 86000001)), ("Pool", "sharding_function", o("sharding_function", "sha1")),
+         ("Pool", "automatic_sharding_key", o("automatic_sharding_key", "t.k")), ("Pool", "sharding_key_regex", o("sharding_key_regex", "sk2: (\\d+)")),
+         ("Pool", "shard_id_regex", o("shard_id_regex", "sid2: (\\d+)")), ("Pool", "regex_search_limit", o("regex_search_limit", 501)), ("Pool", "default_shard", o("default_shard", "random")),
+         ("Pool", "auth_query", o("auth_query", "SELECT 2")), ("Pool", "auth_query_user", o("auth_query_user", "aq2")), ("Pool", "auth_query_password", o("auth_query_password", "aqpw2")),
+         ("Pool", "cleanup_server_connections", o("cleanup_server_connections", False)), ("Pool", "log_client_parameter_status_changes", o("log_client_parameter_status_changes", True)),
+         ("Pool", "prepared_statements_cache_size", o("prepared_statements_cache_size", 10)), ("Pool", "db_activity_init_delay", o("db_activity_init_delay", 101)),
+         ("Pool", "db_activity_ttl", o("db_activity_ttl", 901)), ("Pool", "table_mutation_cache_ms_ttl", o("table_mutation_cache_ms_ttl", 51)),
+         ("Pool", "db_activity_based_routing", o("db_activity_based_routing", True)),
+         ("User", "password", u("password", "pw2")), ("User", "auth_type", u("auth_type", "trust")), ("User", "server_username", u("server_username", "su2")),
+         ("User", "server_password", u("server_password", "spw2")), ("User", "pool_size", u("pool_size", 4)), ("User", "pool_mode", u("pool_mode", "transaction")),
+         ("User", "server_lifetime", u("server_lifetime", 80000001)), ("User", "statement_timeout", u("statement_timeout", 1000)), ("User", "connect_timeout", u("connect_timeout", 701)),
+         ("User", "idle_timeout", u("idle_timeout", 400001)), ("User", "username", u("username", "w")),
+         ("Shard", "database", lambda P: P["shards"]["0"].__setitem__("database", "db0x")),
+         ("Shard", "servers", lambda P: P["shards"]["0"]["servers"].append(["127.0.0.1", "b4", "replica"])),
+         ("Shard", "mirrors", lambda P: P["shards"]["0"]["mirrors"].append(["127.0.0.1", "b3", 1])),
+         ("ServerConfig", "host", lambda P: P["shards"]["0"]["servers"][1].__setitem__(0, "127.0.0.3")),
+         ("ServerConfig", "port", lambda P: P["shards"]["0"]["servers"][1].__setitem__(1, "bd")),
+         ("ServerConfig", "role", lambda P: P["shards"]["1"]["servers"][0].__setitem__(2, "replica")),
+         ("MirrorServerConfig", "host", lambda P: P["shards"]["0"]["mirrors"][0].__setitem__(0, "127.0.0.3")),
+         ("MirrorServerConfig", "port", lambda P: P["shards"]["0"]["mirrors"][0].__setitem__(1, "b4")),
+         ("MirrorServerConfig", "mirroring_target_index", lambda P: P["shards"]["0"]["mirrors"][0].__setitem__(2, 2)),
+         ("Intercept", "enabled", pl("intercept", "enabled", True)),
+         ("Intercept", "queries", lambda P: P["plugins"]["intercept"]["queries"].__setitem__("1", {"query": "select 3", "schema": [["b", "text"]], "result": [["3"]]})),
+         ("Query", "query", qy("query", "select 2")), ("Query", "schema", qy("schema", [["a", "text"], ["b", "text"]])), ("Query", "result", qy("result", [["1", "2"]])),
+         ("TableAccess", "enabled", pl("table_access", "enabled", True)), ("TableAccess", "tables", pl("table_access", "tables", ["secret", "other"])),
+         ("QueryLogger", "enabled", pl("query_logger", "enabled", True)), ("Prewarmer", "enabled", pl("prewarmer", "enabled", True)),
+         ("Prewarmer", "queries", pl("prewarmer", "queries", ["SELECT 1", "SELECT 2"])),
+         ("Plugins", "intercept", lambda P: P["plugins"].__setitem__("intercept", None)), ("Plugins", "table_access", lambda P: P["plugins"].__setitem__("table_access", None)),
+         ("Plugins", "query_logger", lambda P: P["plugins"].__setitem__("query_logger", None)), ("Plugins", "prewarmer", lambda P: P["plugins"].__setitem__("prewarmer", None)),
+         ("Pool", "plugins", lambda P: P.__setitem__("plugins", None)),
+         ("Pool", "query_parser_read_write_splitting", o("query_parser_read_write_splitting", False)), ("Pool", "query_parser_enabled", o("query_parser_enabled", False)),
+         ("Pool", "shards", lambda P: P["shards"].__setitem__("2", {"database": "db2", "mirrors": None, "servers": [["127.0.0.1", "b2", "primary"]]})),
+         ("Pool", "users", lambda P: P["users"].__setitem__("1", dict(P["users"]["0"], username="x"))),
+         ("User", "min_pool_size", u("min_pool_size", 1))]
+    return S
+
+
+def field_family(run, wire):
+    """one scenario: a chain of reloads, each file differing from the previous one in exactly one field of the pool definition.
+    Each must answer Ok(true), give the section a new hash, replace the pool object(s), and (where the field lives in the settings or
+    the addresses) show in the built pool.  Returns the evidence dict; violations are reported here."""
+    steps_def = field_steps()
+    src = source_fields()
+    have = {(a, b) for a, b, _ in steps_def}
+    if src is None:
+        run.broken.append("C14 field family: the struct definitions of config.rs could not be read")
+        return {}
+    missing = [x for x in src if x not in have]
+    if missing:
+        run.violation("tie-broken", "pool-definition fields without a single-field reload pair in props/c14.py field_steps(): %s" % missing,
+                      {"correspondence": "field family vs src/config.rs structs", "missing": missing}, found_input=False)
+    P = rich_base()
+    texts = [render_rich(P)]
+    for _, _, f in steps_def:
+        f(P)
+        texts.append(render_rich(copy.deepcopy(P)))
+    st = [{"op": "reload_state", "label": "f0", "full": True}]
+    for i, t in enumerate(texts[1:], 1):
+        st += [{"op": "write_config", "toml": t}, {"op": "reload_guarded", "label": "f%d" % i}, {"op": "sleep", "ms": 4}, {"op": "reload_state", "label": "f%d" % i, "full": True}]
+    res = W.run_scenario(wire, {"backends": [{"name": b, **({"mode": "down_held"} if b == "bd" else {})} for b in BACKENDS], "toml": texts[0], "steps": st, "workers": 2}, timeout=120)
+    if "events" not in res:
+        run.broken.append("C14 field family: harness failed: %s" % (res.get("harness_error") or res.get("start_error")))
+        return {}
+    marks = {e["label"]: e["state"] for e in res["events"] if e.get("ev") == "reload_state"}
+    rel = {e["label"]: e["result"] for e in res["events"] if e.get("ev") == "reload" and e.get("label")}
+    bad, shown = [], 0
+    for i, (stc, fld, _) in enumerate(steps_def, 1):
+        a, b = marks.get("f%d" % (i - 1)), marks.get("f%d" % i)
+        if a is None or b is None:
+            bad.append((stc, fld, "no observation")); continue
+        ha = {p["name"]: p["hash"] for p in a["config"]["pools"]}
+        hb = {p["name"]: p["hash"] for p in b["config"]["pools"]}
+        why = []
+        if rel.get("f%d" % i) != "Ok(true)":
+            why.append("reload_config returned %s" % rel.get("f%d" % i))
+        if ha.get("pf") == hb.get("pf"):
+            why.append("Pool::hash_value did not change")
+        if any(p["hash"] != hb.get(p["db"]) for p in b["pools"]):
+            why.append("POOLS config_hash differs from CONFIG's")
+        if {p["obj"] for p in a["pools"]} & {p["obj"] for p in b["pools"]}:
+            why.append("a pool object was reused")
+        da = {(p["db"], p["user"]): p["settings_digest"] for p in a["pools"]}
+        db_ = {(p["db"], p["user"]): p["settings_digest"] for p in b["pools"]}
+        if (stc, fld) not in NOT_IN_SETTINGS:
+            if da == db_:
+                why.append("the built pool's settings/addresses do not show the new value")
+            else:
+                shown += 1
+        if why:
+            bad.append((stc, fld, "; ".join(why)))
+    for stc, fld, why in bad[:3]:
+        run.violation("counterexample", "a reload whose file differs from the loaded one ONLY in %s.%s: %s" % (stc, fld, why),
+                      {"input": {"struct": stc, "field": fld, "old_text": texts[[x[:2] for x in steps_def].index((stc, fld))], "new_text": texts[[x[:2] for x in steps_def].index((stc, fld)) + 1]},
+                       "class": "field-family", "what_failed": why})
+    return {"fields": len(steps_def), "fields_in_source": len(src), "shown_in_built_pool": shown, "failed": [(a, b) for a, b, _ in bad]}
 
 
 # ------------------------------------------------------------------------------------ the real binary: autoreload + SIGHUP
@@ -1332,6 +1768,14 @@ def evaluate(run, case, script, res, model, stats):
     start = next(e for e in res["events"] if e.get("ev") == "reload_state" and e.get("label") == "start")
     impl[0]["start"] = start["state"]
     V, f12 = monitors(case, script, res, impl)
+    if case["base"] in ("H", "HP", "HQ"):
+        V2, info = option_monitors(case, script, res, impl)
+        V += V2
+        for k_, v_ in info.items():
+            if k_ in ("d3", "d4"):
+                stats.setdefault(k_, []).extend(v_)
+            else:
+                stats.setdefault("options", {})[k_] = stats.setdefault("options", {}).get(k_, 0) + v_
     dis = None
     if model is not None:
         dis = compare(case, script, model, impl, is_warm(case))
@@ -1405,6 +1849,19 @@ def check(run):
                        "model_obs": [s["obs"] for s in model["steps"]]}, found_input=False)
     th.join()
     run.cov["binary_leg"] = leg
+    run.cov["field_family"] = field_family(run, wire)
+    for hit in stats.get("d3", [])[:1]:
+        run.violation("counterexample", "regression of %s: %s" % (D3, hit), {"class": D3, "hit": hit})
+    e = known.get(D4)
+    if stats.get("d4"):
+        if e is not None and e.get("status") == "fixed":
+            run.violation("counterexample", "regression of %s: %s" % (D4, stats["d4"][0]), {"class": D4, "hit": stats["d4"][0]})
+        else:
+            line = (e.get("line") or e.get("what")) if e else None
+            run.known_finding((line or D4_TEXT) + " [%d probes, e.g. %s]" % (len(stats["d4"]), stats["d4"][0][:220]), key=D4)
+    elif e is not None and e.get("status") == "known":
+        run.violation("tie-broken", "known finding %s is listed but the old session of ps-default_role-primary-to-replica follows the new default_role: update known_findings.jsonl" % D4,
+                      {"correspondence": "D4 class vs wire run"}, found_input=False)
     run.cov["traces_validated_against_impl"] = stats["validated"]
     run.cov["distinct_nontrivial"] = len(distinct)
     run.cov["rule"] = ("old file (2 bases x 4 renderings) x new file: %d valid kinds (identical, reformatted, defaults written out, general-only, server replaced/added/swapped, "
@@ -1415,10 +1872,15 @@ def check(run):
                        "general-section kinds (idle_client_in_transaction_timeout set/lowered/raised/removed, connect_timeout, healthcheck, ban_time, user statement_timeout) have the client "
                        "silent inside its open transaction across the reload and again in a new transaction; removal kinds also run with the pool PAUSEd before the reload, RESUME and a "
                        "new login of the removed user after it. Binary leg: the real pgcat process with autoreload = 200 ms, file first/second/garbage/third/unchanged/fourth/garbage+SIGHUP/"
-                       "fifth+SIGHUP/first, a new client after each. distinct = distinct (old text, new texts, timing, trigger); all non-trivial (>= 2 reloads, >= 6 transactions)"
+                       "fifth+SIGHUP/first, a new client after each. Sharded pool ps (3 servers per shard): shards/servers added, removed, reordered with the replicas on 127.0.0.2 banned before "
+                       "the reload and a statement on every shard afterwards from the old and a new session; pool options that live in the query router (table_access on/list/off, "
+                       "default_role, read/write splitting, shard count, sharding function, default_shard) probed in the old session (first statement, and after one checkout) and in a "
+                       "new one; refused reloads (build fails, validate, TOML, unreadable) whose file drops a PAUSEd pool. Field family: one chain of 65 reloads, each changing exactly one "
+                       "field of Pool/User/Shard/ServerConfig/MirrorServerConfig/Plugins/Intercept/TableAccess/QueryLogger/Prewarmer/Query (the list is read from src/config.rs). distinct = distinct (old text, new texts, timing, trigger); all non-trivial (>= 2 reloads, >= 6 transactions)"
                        % (len(valid_kinds()), len(invalid_kinds())))
     run.cov["input_distribution"] = {"cases": len(cases), "first_file_kind": kinds, "distinct_old_new_pairs": len(pairs), "model_steps_compared": stats["steps"],
-                                     "observations": stats["obs"], "f12_regression_cases": sum(1 for c in cases if c["files"][0].get("dead")), "f12_hits": len(f12_seen), "d2_stale_mode_hits": len(stats.get("d2", []))}
+                                     "observations": stats["obs"], "f12_regression_cases": sum(1 for c in cases if c["files"][0].get("dead")), "f12_hits": len(f12_seen), "d2_stale_mode_hits": len(stats.get("d2", [])), "d3_stale_router_hits": len(stats.get("d3", [])), "d4_default_role_hits": len(stats.get("d4", [])),
+                                     "shard_and_option_probes": stats.get("options")}
     if models and models[0]:
         run.cov["samples"] = [{"case": case_key(cases[0]), "model_obs": [s["obs"] for s in models[0]["steps"]][:12]},
                               {"case": case_key(cases[-1])}]
